@@ -25,6 +25,9 @@ pub enum Op10
     ManualDespawn(u8),
     /// Make `.0` a child of `.1`.
     Reparent(u8, u8),
+    /// `App::setup_auto_despawn()` called again (documented as safe to call from several plugins; the react plugin and
+    /// the app-level registration helpers all call it). At most twice per history.
+    Resetup,
     /// A burst: `.0` fresh entities are prepared and every signal is dropped again before the next collection; with
     /// `.1` the entities are despawned by hand first (stale entries). At most one burst per history.
     Burst(u16, bool),
@@ -46,6 +49,7 @@ pub struct Model10
     pub burst: u8,
     pub burst_size: u16,
     pub burst_stale: bool,
+    pub resetups: u8,
 }
 
 impl Model10
@@ -95,6 +99,7 @@ impl Model10
             }
         }
         v.push(Op10::Gc);
+        if self.resetups < 1 { v.push(Op10::Resetup); }
         if self.burst == 0
         {
             for k in BURST_SIZES.lock().unwrap().iter() { v.push(Op10::Burst(*k, false)); v.push(Op10::Burst(*k, true)); }
@@ -123,6 +128,7 @@ impl Model10
                 if self.burst == 1 { self.burst = 2; }
             }
             Op10::Burst(k, stale) => { self.burst = 1; self.burst_size = k; self.burst_stale = stale; }
+            Op10::Resetup => { self.resetups += 1; }
             Op10::ManualDespawn(e) =>
             {
                 // plain (non-recursive) despawn: children stay, without a parent
@@ -159,9 +165,11 @@ pub fn run10(hist: &[Op10]) -> StepResult<Key10>
     for (k, op) in hist.iter().enumerate()
     {
         let last = k + 1 == hist.len();
+        if *op == Op10::Resetup { app.setup_auto_despawn(); }
         let world = app.world_mut();
         match *op
         {
+            Op10::Resetup => {}
             Op10::Prepare(e) =>
             {
                 let s = world.resource::<AutoDespawner>().prepare(ents[e as usize]);
